@@ -158,6 +158,9 @@ func zzC09(bound int, nOps int) { zzC09Pairs(bound, nOps, nil) }
 func zzC09Pairs(bound int, nOps int, pairs [][2]int) {
 	ww := zzNewWalletWorld(10001, 2)
 	verifrt.PreemptionBound(bound)
+	// the address-issuing pairs also with every lock release as a scheduling
+	// point (a critical section that ends too early shows there)
+	verifrt.YieldOnUnlock(pairs == nil)
 	var opA, opB int
 	if pairs != nil {
 		p := pairs[verifrt.Choice(len(pairs), "pair")]
